@@ -40,18 +40,21 @@ func (fr *Frame) execCallCommon(ins ssa.Instruction, c *ssa.CallCommon, st *Stat
 	eng := fr.run.eng
 	var args []Val
 	resT := c.Signature().Results()
-	if _, isBuiltin := c.Value.(*ssa.Builtin); !isBuiltin {
+	for _, a := range c.Args {
+		args = append(args, val(a))
+	}
+	if _, isBuiltin := c.Value.(*ssa.Builtin); !isBuiltin && fr.contract != nil {
+		// anchored assertions at this call may mention the actual arguments as $arg0, $arg1, ...
+		fr.hookVars = map[string]Val{}
+		for i, a := range args {
+			fr.hookVars[fmt.Sprintf("$arg%d", i)] = a
+		}
 		fr.atHook("call", calleeName(c), ins, st)
+		fr.hookVars = nil
 	}
 	if c.IsInvoke() {
 		recv := val(c.Value)
-		for _, a := range c.Args {
-			args = append(args, val(a))
-		}
 		return fr.invoke(ins, c, recv, args, st)
-	}
-	for _, a := range c.Args {
-		args = append(args, val(a))
 	}
 	if b, ok := c.Value.(*ssa.Builtin); ok {
 		return fr.builtin(ins, b, c, args, st)
